@@ -200,7 +200,27 @@ func init() {
 				}
 				if failEvery > 0 && num%failEvery == 0 {
 					truthF.Add(1)
-					t.FailNow()
+					switch p["failkind"] {
+					case "panicerr":
+						panic(fmt.Errorf("scripted error panic"))
+					case "panicstr":
+						panic("scripted string panic")
+					case "nilmap":
+						var m map[string]int
+						m["x"] = 1 //nolint
+					case "errorf":
+						t.Errorf("scripted %s", "errorf")
+						return
+					case "timefail": // the failure is raised inside a timed stage
+						initGlobalMetrics()
+						t.Time("stage", func() { t.FailNow() })
+					case "timeerr":
+						initGlobalMetrics()
+						t.Time("stage", func() { t.Errorf("scripted %s", "errorf in a timed stage") })
+						return
+					default:
+						t.FailNow()
+					}
 				}
 				truthS.Add(1)
 			}
@@ -348,8 +368,15 @@ func init() {
 				return "prerun-err"
 			}
 		}
+		settings := envsettings.Settings{}
+		var gw *fakeGateway
+		if mode, ok := p["pushgw"]; ok { // metrics are pushed to a gateway on the loopback interface
+			gw = newFakeGateway(mode)
+			defer gw.srv.Close()
+			settings.Prometheus.PushGateway = gw.srv.URL
+		}
 		before := goleak.IgnoreCurrent()
-		r, err := run.NewRun(opts, scs, trig, ms(p["timeout"]), envsettings.Settings{}, m, out)
+		r, err := run.NewRun(opts, scs, trig, ms(p["timeout"]), settings, m, out)
 		if err != nil {
 			return "newrun-err"
 		}
@@ -361,7 +388,9 @@ func init() {
 		// file mode: at every accepted tick (yield point pool.trigger.accepted, i.e. while a stage triggers)
 		// the stage's own parameters must be in the environment, nobody else's, and stages must not go backwards
 		var stageSeqBad atomic.Int64
+		var stageFirstTick []atomic.Int64 // unix nano of the first accepted tick of each stage
 		if p["mode"] == "file" {
+			stageFirstTick = make([]atomic.Int64, len(fileParams))
 			lastStage := -1
 			verifhook.Set(func(point string) {
 				if point != "pool.trigger.accepted" {
@@ -373,6 +402,7 @@ func init() {
 					envBad.Add(1)
 					return
 				}
+				stageFirstTick[i].CompareAndSwap(0, time.Now().UnixNano())
 				for j := range fileParams {
 					v, ok := os.LookupEnv(fmt.Sprintf("F1VERIF_STAGE_%d", j))
 					if (j == i) != ok || (j == i && v != "v"+strconv.Itoa(i)) {
@@ -520,8 +550,28 @@ func init() {
 		}
 		firstEvalAfterSetup := 1
 		rl.mu.Unlock()
+		if dr.err != nil || dr.res == nil {
+			return "do-returned-an-error"
+		}
 		sn := dr.res.Snapshot()
 		g := gatherCounts(m.Registry)
+		stageStarts := "-"
+		if len(stageFirstTick) > 0 {
+			var parts []string
+			for i := range stageFirstTick {
+				if v := stageFirstTick[i].Load(); v == 0 {
+					parts = append(parts, "x")
+				} else {
+					parts = append(parts, strconv.FormatInt((v-t0.UnixNano())/1e6, 10))
+				}
+			}
+			stageStarts = strings.Join(parts, ",")
+		}
+		pushed := "-"
+		if gw != nil {
+			pg, acc := gw.counts()
+			pushed = fmt.Sprintf("%d/%d/%d/%d", pg.succ, pg.fail, pg.dropped, acc)
+		}
 		failed, hasErr := 0, 0
 		if dr.res.Failed() {
 			failed = 1
@@ -534,12 +584,12 @@ func init() {
 		return fmt.Sprintf("ret=%d started=%d finished=%d inflight=%d startedAfter=%d progressAfter=%d gapless=%s maxid=%d "+
 			"maxflight=%d shared=%d res=%d/%d/%d truth=%d/%d metrics=%d/%d/%d/%d evals=%d sumrates=%d lastval=%d cadence=%s "+
 			"setups=%d setupFirst=%d tdLast=%d tdOrder=%d failed=%d err=%d leak=%d envBad=%d envAfter=%s stageOrderBad=%d "+
-			"laststart=%d trigdur=%d idchanged=%d cleanupBad=%d cleanupEarly=%d setupHandleInIteration=%d",
+			"laststart=%d trigdur=%d idchanged=%d cleanupBad=%d cleanupEarly=%d setupHandleInIteration=%d pushed=%s stagestarts=%s",
 			ret.Milliseconds(), startedAtRet, finishedAtRet, inflightAtRet, startedAfter, progressAfter, boolTok(gapless), mx,
 			maxflight.Load(), shared.Load(), sn.SuccessfulIterationDurations.Count, sn.FailedIterationDurations.Count,
 			sn.DroppedIterationCount, truthS.Load(), truthF.Load(), g.succ, g.fail, g.dropped, g.setupSucc+g.setupFail,
 			evals, sum, lastVal, cadence, setupCount.Load(), setupFirst, tdLast, tdOrder, failed, hasErr, leak,
 			envBad.Load(), envAfter, stageSeqBad.Load(), lastStart, trig.Duration.Milliseconds(),
-			idChanged.Load(), cleanupBad, cleanupEarly.Load(), gotSetupHandle.Load())
+			idChanged.Load(), cleanupBad, cleanupEarly.Load(), gotSetupHandle.Load(), pushed, stageStarts)
 	})
 }
